@@ -29,6 +29,7 @@ func c15(c *eng.Ctx, r *eng.Report) {
 		"R15.10 a panic raised while handling one message ends that message, not the party: the deferred recover() of baseParty.Update neither sends on the party's Err channel nor calls anything that does (ID.Serialize panics on an over-long signer id, which the wire decoder lets through); " +
 		"R15.12 the key a share is verified under is the sender's key in this block's group: every key GetMemberSignPubKey(group, member) returns comes from GetMemberSignPK(member) on the record GetJoinedGroupInfo(group) returned — not from a store keyed by the member alone (a miner sits in several groups with a different share key in each); " +
 		"R15.14 the share sets are fed by the checked path only: outside the generator's own methods the only function that calls AddWitnessSign/addWitnessForce is (*round1).Update, whose two call sites R15.1 decides — a second feeder (a batch path over parked messages that verifies the recovered result instead of each piece) lets one bad piece into the set, and what it leaves behind blocks the honest shares; " +
+		"R15.18 shares from non-members are ignored: both AddWitnessSign calls of round1.Update are reached only across the true edge of group.MemExist(signer) for the block's group — the key lookup alone does not say so, because the announcement handler (OnMessageSignPK) stores any self-signed (signer, group, key) triple without asking whether the signer belongs to the group: an outsider announces a key of its own and its share passes every other check (finding F30); " +
 		"R15.17 an id taken from a message can be written back: ID.Serialize panics for a value wider than ID_LENGTH bytes, so (*ID).Deserialize — the only way bytes from the wire become an ID — refuses input longer than ID_LENGTH before it stores it; otherwise one verify message with a 33-byte signer id, parked during the round-0 wait, panics inside round1.Start's replay loop (the first thing round1.Update does is log the signer's hex id), the party's recover swallows it, and the honest pieces the loop had not reached yet are never replayed (finding F29); " +
 		"R15.16 the bytes a share is verified over are the data hash and nothing else of the message: in SignInfo.VerifySign the message handed to groupsig.VerifySig is computed from the field dataHash alone — round 1 compares dataHash with the block's hash, so if another sender-filled field (a version number) selects what was signed, a share over other bytes passes as a share over this block's hash and poisons the recovery set; " +
 		"R15.15 a party parks every early message: baseParty.StoreMessage reaches its futureMessages update on every path (no return precedes it) — a quota counted before any signature is checked is filled by one faulty member's forged messages and the honest shares that arrive afterwards are dropped; " +
@@ -54,6 +55,7 @@ func c15(c *eng.Ctx, r *eng.Report) {
 	c15PartyParksEverything(c, r)
 	c15VerifiedBytesAreTheHash(c, r)
 	c15DecodedIdsSerialise(c, r)
+	c15OnlyMembersHaveShares(c, r)
 }
 
 // c15Parking: a verify message that arrives before its party exists is parked
@@ -919,4 +921,28 @@ func c15DecodedIdsSerialise(c *eng.Ctx, r *eng.Report) {
 		}
 	}
 	r.Check(bad == "" && n >= 1, rule, "decoded-id:serialisable", c.Pos(de.Pos()), "Deserialize stores at most ID_LENGTH bytes", "(*ID).Deserialize stores input of any length (at "+bad+") while ID.Serialize panics for a value wider than ID_LENGTH: a verify message whose signer id is 33 bytes long decodes, and the first GetHexString on it — the debug line at the top of round1.Update — panics. Parked during the round-0 wait it blows up round1.Start's replay loop; baseParty.Update recovers, the loop is gone, and the honest pieces it had not reached stay filed for ever (a repeated copy is refused as already filed): with threshold honest pieces parked, the block fails to finalise in about half the map orders")
+}
+
+// c15OnlyMembersHaveShares: see R15.18.
+func c15OnlyMembersHaveShares(c *eng.Ctx, r *eng.Report) {
+	const rule = "R15.18"
+	r.Min(rule, 2)
+	fn := c.Func(logicalPkg, "(*round1).Update")
+	if !r.Anchor(fn != nil, rule, "(*round1).Update") {
+		return
+	}
+	for i, add := range callsNamed(fn, "(*consensus/logical.groupSignGenerator).AddWitnessSign") {
+		member := false
+		for _, cd := range eng.CondsAt(add) {
+			call, ok := cd.V.(*ssa.Call)
+			if !ok || !cd.True || !strings.HasSuffix(eng.CallName(&call.Call), "GroupInfo).MemExist") {
+				continue
+			}
+			args := call.Call.Args
+			if strings.HasSuffix(eng.Desc(args[0]), ".group") && strings.Contains(eng.Desc(args[len(args)-1]), "GetSignerID(") {
+				member = true
+			}
+		}
+		r.Check(member, rule, fmt.Sprintf("round1.Update:member-only#%d", i), c.Pos(add.Pos()), "the share is counted only for a member of the block's group", "round1.Update adds a share to a recovery set without having established that its sender is a member of the block's group: the share key is looked up by (group, signer), and the handler that stores those keys accepts a self-signed announcement from anybody — an outsider's share enters the set under its own id, the set 'recovers' a signature that fails under the group key with threshold-1 honest shares, SignRecovered() latches, the honest shares that follow are refused as duplicates of a finished set, and the valid block never finalises")
+	}
 }
